@@ -20,6 +20,20 @@ CHECKS = {
    note=TB + "Program identity inside ObsEqFilter is hash equality in the code and structural equality in the model (hash collisions are outside the model).  Stub filters are pure.",
    design="5/C20"),
 }
+CHECKS["C01"] = dict(
+   technique="Coq proof of the CFG-construction model against an independent typing judgement + extracted-model/implementation correspondence",
+   text=("Theorems (Props/C01.v, closed under the global context, all parameters unbounded): membership in the compiled, cleaned grammar equals an "
+         "independent typing judgement wt (type via ends_with, depth bound, minimum variable depth, constant types, forbidden (parent, index, child) "
+         "patterns for children of any arity) for every program when n_gram >= 2 (C01_language; C01_ngram1_refuted shows the hypothesis is needed); "
+         "members have depth <= bound (C01_depth); the language does not depend on n_gram >= 2 (C01_ngram_irrelevant); programs() = length of the "
+         "enumerated language, which is duplicate-free and is exactly the set of members (C01_count, C01_count_nodup, C01_count_members); every rule "
+         "left at a reachable non-terminal is used by the derivation of some member (C01_rules_useful, C01_reachable, C01_productive).  Each run "
+         "re-checks the theorems and compares the extracted model with CFG.depth_constraint / UCFG.depth_constraint on random DSLs: membership of "
+         "every candidate term (members, near-misses, ill-typed, partial and over-applications), programs(), the (type, depth, symbol) rule set and "
+         "type_request, under several hash seeds.  Not covered by a theorem: the unbounded grammar CFG.infinite and recursive=True (correspondence "
+         "only for type_request), derive_all/reduce_derivations (covered through C04)."),
+   note=TB + "The model represents the grammar by the function giving a non-terminal's rules and computes cleaning by productivity; the code's work-list and dict order are not modelled (the rule-set comparison ties them).  Types are ground without sums so Python type equality is structural.  Known findings: n_gram < 2 cannot honour forbidden patterns; an empty language makes the constructor raise KeyError.",
+   design="5/C01")
 NOT_YET = {}
 def main():
     props = [json.loads(l) for l in open(os.path.join(V, "properties.jsonl"))]
